@@ -58,6 +58,23 @@ Proof.
 Qed.
 Print Assumptions C01_read_eq_np_index.
 
+(* reader[s] with a single non-tuple selector s (Python int, NumPy int, slice,
+   list/array of sample indices) is read(nsel=s): NumPy row indexing M[s] = M[s, :]
+   of the calibrated sorted array — rows for a list, one row (rank 1) for an int,
+   IndexError / ValueError for an invalid s.  (Before fix 76db94c a 2-element list
+   was taken as (sample, channel) and other lists returned None: F-C01-b/d.) *)
+Theorem C01_getitem_single_selector :
+  forall (A G V : Type) (cal : A -> G -> V) raw ns nc order gain M s,
+  rect raw ns nc -> order_ok order nc -> zlen gain = nc ->
+  calibrated_sorted cal raw order gain = Some M ->
+  getitem cal None raw nc order gain (ISel s)
+    = bind (np_index2 M ns nc s (SSlice None None None)) (fun r => Ok (Some r)).
+Proof.
+  intros A G V cal raw ns nc order gain M s Hr Ho Hg.
+  exact (getitem_single cal raw ns nc order gain Hr Ho Hg M s).
+Qed.
+Print Assumptions C01_getitem_single_selector.
+
 (* Both selectors invalid: both the reader and NumPy raise; the reader reports
    the channel selector's exception (it is evaluated first), NumPy the one of
    the first basic index in axis order. *)
@@ -157,22 +174,6 @@ Proof.
   assert (j = 0 \/ j = 1) as [-> | ->] by lia; vm_compute; congruence.
 Qed.
 
-(* F-C01-b: reader[[a, b]] (one list of two sample indices) is dispatched as
-   (sample a, channel b): a scalar, not the two rows NumPy indexing gives; a
-   list of any other length returns None. *)
-Theorem C01_getitem_single_list_refuted :
-  exists raw nc order gain,
-    rect raw 4 nc /\ order_ok order nc /\ zlen gain = nc /\
-    getitem ex_cal None raw nc order gain (ISel (SList [1; 2])) = Ok (Some (true, true, 1, [[(1, 1, 1)]])) /\
-    read ex_cal None raw nc order gain (SList [1; 2]) (SSlice None None None)
-      = Ok (false, false, 3, [[(1, 2, 2); (1, 0, 0); (1, 1, 1)]; [(2, 2, 2); (2, 0, 0); (2, 1, 1)]]) /\
-    getitem ex_cal None raw nc order gain (ISel (SList [1; 2; 3])) = Ok None.
-Proof.
-  exists ex_raw, 3, [2; 0; 1], [0; 1; 2].
-  repeat split; try (repeat constructor; lia).
-Qed.
-Print Assumptions C01_getitem_single_list_refuted.
-
 (* ---- non-vacuity ---- *)
 Example C01_example_read :
   rect ex_raw 4 3 /\ order_ok [2; 0; 1] 3 /\
@@ -182,5 +183,8 @@ Example C01_example_read :
   read ex_cal None ex_raw 3 [2; 0; 1] [0; 1; 2] (SInt (-4)) (SInt (-3)) = Ok (true, true, 1, [[(0, 2, 2)]]) /\
   read ex_cal None ex_raw 3 [2; 0; 1] [0; 1; 2] (SSlice None None (Some 0)) (SInt 0) = Err EValue /\
   read ex_cal (Some [0; 3; 4]) ex_raw 3 [2; 0; 1] [0; 1; 2] (SSlice (Some 1) None (Some 2)) (SInt 1)
-    = Ok (false, true, 1, [[(1, 0, 0)]; [(3, 0, 0)]]).
+    = Ok (false, true, 1, [[(1, 0, 0)]; [(3, 0, 0)]]) /\
+  getitem ex_cal None ex_raw 3 [2; 0; 1] [0; 1; 2] (ISel (SList [1; 2]))
+    = Ok (Some (false, false, 3, [[(1, 2, 2); (1, 0, 0); (1, 1, 1)]; [(2, 2, 2); (2, 0, 0); (2, 1, 1)]])) /\
+  getitem ex_cal None ex_raw 3 [2; 0; 1] [0; 1; 2] (ITuple [SInt 0; SInt 0; SInt 0]) = Ok None.
 Proof. repeat split; try (repeat constructor; lia). Qed.
